@@ -25,6 +25,7 @@ def style(rng, words: List[str], kind: str) -> str:
 
 class Gen:
     def __init__(self, seed: int):
+        self.seed = seed
         self.rng = random.Random(seed)
 
     def fresh(self, used: set, n=2, kind='t') -> str:
@@ -42,7 +43,13 @@ class Gen:
         rng = self.rng
         nns = rng.choice([1, 2, 2, 3])
         nss = rng.sample(NS_WORDS, nns)
-        uris = {w: f'http://verif.example/{w}' for w in nss}
+        # URI shapes (own RNG, so the schema structure for a seed does not depend on it); all keep distinct 3-letter stems,
+        # because colliding abbreviations across imported files are the known finding of C10
+        urng = random.Random(self.seed * 7919 + 13)
+        shape = urng.choice(['plain', 'plain', 'urn', 'dotted', 'dashed', 'deep'])
+        own_tns = urng.random() < 0.4
+        uris = {w: {'plain': f'http://verif.example/{w}', 'urn': f'urn:verif:example-{w}', 'dotted': f'http://verif.example/{w}.schema.v1',
+                    'dashed': f'http://verif.example/svc-{w}', 'deep': f'https://verif.example/a/b/2024/{w}'}[shape] for w in nss}
         # dependency order: namespace k may reference namespaces > k (imports form a DAG from the start file)
         types: Dict[str, List[dict]] = {w: [] for w in nss}
         all_types: List[Tuple[str, dict]] = []
@@ -109,7 +116,9 @@ class Gen:
                         if depth < 2 and r < 0.15:
                             out.append({'group': 'sequence', 'occ': rng.choice([{}, {'minOccurs': '0'}, {'maxOccurs': 'unbounded'}]), 'items': particles(depth + 1)})
                         elif depth < 2 and r < 0.3:
-                            items = [member() for _ in range(rng.randint(2, 3))]
+                            # a branch is an element or a nested sequence of (required) elements
+                            items = [member() if rng.random() < 0.7 else {'group': 'sequence', 'occ': {}, 'items': [member() for _ in range(rng.randint(1, 2))]}
+                                     for _ in range(rng.randint(2, 3))]
                             out.append({'group': 'choice', 'occ': rng.choice([{}, {}, {'maxOccurs': 'unbounded'}]), 'items': items})
                         else:
                             out.append(member())
@@ -148,6 +157,8 @@ class Gen:
         def schema_text(w, inline=False):
             later = [x for x in nss if nss.index(x) > nss.index(w)]
             pfx = {x: f'n{nss.index(x)}' for x in nss}
+            if own_tns and not inline:
+                pfx[w] = 'tns'          # every file calls its own namespace `tns` (the same prefix means another URI per file)
             decl = ' '.join(f'xmlns:{pfx[x]}="{uris[x]}"' for x in [w] + later)
             s = f'<xs:schema xmlns:xs="{XS}" elementFormDefault="qualified" targetNamespace="{uris[w]}" {decl}>\n'
             for x in later:
@@ -196,12 +207,42 @@ class Gen:
             opnames.add(on.lower().replace('_', ''))
             bi = rng.choice(els)
             bo = rng.choice(els)
-            heads = rng.sample(els, min(len(els), rng.choice([0, 0, 1, 2])))
-            parts = f'<wsdl:part name="parameters" element="{pfx[bi[0]]}:{bi[1]}"/>' + ''.join(f'<wsdl:part name="h{j}" element="{pfx[h[0]]}:{h[1]}"/>' for j, h in enumerate(heads))
-            msgs += f'<wsdl:message name="M{k}In">{parts}</wsdl:message>\n<wsdl:message name="M{k}Out"><wsdl:part name="result" element="{pfx[bo[0]]}:{bo[1]}"/></wsdl:message>\n'
-            pt += f' <wsdl:operation name="{on}"><wsdl:input message="tns:M{k}In"/><wsdl:output message="tns:M{k}Out"/></wsdl:operation>\n'
-            hb = ''.join(f'<soap:header message="tns:M{k}In" part="h{j}" use="literal"/>' for j in range(len(heads)))
-            bd += f' <wsdl:operation name="{on}"><soap:operation soapAction="http://verif.example/act/{k}"/><wsdl:input>{hb}<soap:body parts="parameters" use="literal"/></wsdl:input><wsdl:output><soap:body use="literal"/></wsdl:output></wsdl:operation>\n'
+            heads = rng.sample(els, min(len(els), rng.choice([0, 0, 1, 2, 3])))
+            oheads = rng.sample(els, min(len(els), rng.choice([0, 0, 0, 1, 2])))
+            # part names: the usual "parameters"/"result", the SAME name in both directions, or the element's own name
+            nstyle = rng.choice(['classic', 'same', 'element'])
+            ipn = {'classic': 'parameters', 'same': 'parameters', 'element': bi[1]}[nstyle]
+            opn = {'classic': 'result', 'same': 'parameters', 'element': bo[1]}[nstyle]
+            hname = (lambda j: f'h{j}') if nstyle != 'same' else (lambda j: f'header{j}')
+            ohname = (lambda j: f'oh{j}') if nstyle != 'same' else (lambda j: f'header{j}')
+            if nstyle == 'element':
+                # part names must be unique within a message
+                used = {ipn}
+                ihn = []
+                for j, h in enumerate(heads):
+                    ihn.append(h[1] if h[1] not in used else f'h{j}')
+                    used.add(ihn[-1])
+                used = {opn}
+                ohn = []
+                for j, h in enumerate(oheads):
+                    ohn.append(h[1] if h[1] not in used else f'oh{j}')
+                    used.add(ohn[-1])
+            else:
+                ihn = [hname(j) for j in range(len(heads))]
+                ohn = [ohname(j) for j in range(len(oheads))]
+            one_way = rng.random() < 0.08
+            iparts = f'<wsdl:part name="{ipn}" element="{pfx[bi[0]]}:{bi[1]}"/>' + ''.join(f'<wsdl:part name="{ihn[j]}" element="{pfx[h[0]]}:{h[1]}"/>' for j, h in enumerate(heads))
+            oparts = f'<wsdl:part name="{opn}" element="{pfx[bo[0]]}:{bo[1]}"/>' + ''.join(f'<wsdl:part name="{ohn[j]}" element="{pfx[h[0]]}:{h[1]}"/>' for j, h in enumerate(oheads))
+            if rng.random() < 0.3:      # header parts declared before the body part
+                iparts = ''.join(f'<wsdl:part name="{ihn[j]}" element="{pfx[h[0]]}:{h[1]}"/>' for j, h in enumerate(heads)) + f'<wsdl:part name="{ipn}" element="{pfx[bi[0]]}:{bi[1]}"/>'
+            msgs += f'<wsdl:message name="M{k}In">{iparts}</wsdl:message>\n' + ('' if one_way else f'<wsdl:message name="M{k}Out">{oparts}</wsdl:message>\n')
+            pt += f' <wsdl:operation name="{on}"><wsdl:input message="tns:M{k}In"/>' + ('' if one_way else f'<wsdl:output message="tns:M{k}Out"/>') + '</wsdl:operation>\n'
+            hb = ''.join(f'<soap:header message="tns:M{k}In" part="{ihn[j]}" use="literal"/>' for j in range(len(heads)))
+            ohb = ''.join(f'<soap:header message="tns:M{k}Out" part="{ohn[j]}" use="literal"/>' for j in range(len(oheads)))
+            ip = f' parts="{ipn}"' if rng.random() < 0.5 else ''
+            op = f' parts="{opn}"' if rng.random() < 0.5 else ''
+            bd += (f' <wsdl:operation name="{on}"><soap:operation soapAction="http://verif.example/act/{k}"/><wsdl:input>{hb}<soap:body{ip} use="literal"/></wsdl:input>'
+                   + ('' if one_way else f'<wsdl:output>{ohb}<soap:body{op} use="literal"/></wsdl:output>') + '</wsdl:operation>\n')
         svc = style(rng, rng.sample(WORDS, 2), 't')
         svc = ''.join(x.capitalize() for x in svc.replace('_', ' ').split()) if '_' in svc else svc[0].upper() + svc[1:]
         txt = (f'<wsdl:definitions xmlns:wsdl="http://schemas.xmlsoap.org/wsdl/" xmlns:soap="http://schemas.xmlsoap.org/wsdl/soap/" xmlns:xs="{XS}" '
